@@ -875,7 +875,7 @@ func c05(r *core.Run) {
 				if cal == nil {
 					// the reply method handed to a shared mapping helper as a function value
 					for _, bc := range m.boundCallees(c.Common().Value) {
-						if m.may[bc] {
+						if _, may := m.literalMustMay(bc); may {
 							isReply = true
 						}
 					}
@@ -892,6 +892,26 @@ func c05(r *core.Run) {
 				}
 				if errArg == nil {
 					continue
+				}
+				// a func literal that only forwards its own *Error parameter to the reply method and is
+				// handed to a helper as the "send this error" callback: what it is called with is judged
+				// at the helper's calls of that callback
+				if prm, isPrm := errArg.(*ssa.Parameter); isPrm && prm.Parent().Parent() != nil {
+					handedOn := false
+					for _, h := range p.Helpers(cl) {
+						for _, f2 := range withAnon(h) {
+							for _, c2 := range core.Calls(f2) {
+								for _, a := range c2.Common().Args {
+									if mc, ok := a.(*ssa.MakeClosure); ok && mc.Fn == ssa.Value(prm.Parent()) {
+										handedOn = true
+									}
+								}
+							}
+						}
+					}
+					if handedOn {
+						continue
+					}
 				}
 				desc, good := "", false
 				switch x := errArg.(type) {
@@ -1133,7 +1153,9 @@ func c05Verbatim(r *core.Run, root []*ssa.Function) {
 			continue
 		}
 		// the marshal call(s) encoding a value that holds the parameter
-		holds := func(arg ssa.Value) bool {
+		var holdsOf func(eprm *ssa.Parameter, arg ssa.Value) bool
+		holds := func(arg ssa.Value) bool { return holdsOf(eprm, arg) }
+		holdsOf = func(eprm *ssa.Parameter, arg ssa.Value) bool {
 			v := core.Strip(arg)
 			if v == ssa.Value(eprm) {
 				return true
@@ -1252,8 +1274,15 @@ func c05Verbatim(r *core.Run, root []*ssa.Function) {
 							rs := core.NewResolver()
 							rs.Bind(hc)
 							var hm []*ssa.Call
+							// the helper's own parameter that receives the *Error
+							var hprm *ssa.Parameter
+							for i, ha := range hc.Common().Args {
+								if core.Strip(ha) == ssa.Value(eprm) && i < len(cal.Params) {
+									hprm = cal.Params[i]
+								}
+							}
 							for _, c2 := range core.Calls(cal) {
-								if call, ok := c2.(*ssa.Call); ok && core.CalleeName(call) == "encoding/json.Marshal" && holds(rs.R(call.Call.Args[0])) {
+								if call, ok := c2.(*ssa.Call); ok && core.CalleeName(call) == "encoding/json.Marshal" && (holds(rs.R(call.Call.Args[0])) || (hprm != nil && holdsOf(hprm, call.Call.Args[0]))) {
 									hm = append(hm, call)
 								}
 							}
